@@ -175,6 +175,9 @@ def nbit(e):
             return "vec[" + nbit(e["repeat"][0]) + ";" + nbit(e["repeat"][1]) + "]"
         return show(e)
     if k == "mcall":
+        if e["name"] in ("saturating_sub", "wrapping_sub") and len(e["args"]) == 1 and e["args"][0].get("k") == "lit" and e["args"][0].get("ty") == "int" \
+                and int(str(e["args"][0]["v"]).replace("_", "")) == 0:
+            return nbit(e["recv"])          # x - 0 is x in every integer subtraction flavour
         return nbit(e["recv"]) + "." + e["name"] + "(" + ",".join(nbit(a) for a in e["args"]) + ")"
     if k == "ite":
         return "ite(" + nbit(e["c"]) + "," + nbit(e["a"]) + "," + nbit(e["b"]) + ")"
